@@ -231,6 +231,43 @@ var vC11Times = []time.Time{
 
 var vC11RoaringViews = []string{"", "2019", "201901", "20190102", "2021"}
 
+type vC11FieldSpec struct {
+	Name, Kind string
+	Opt        func() pilosa.FieldOption
+}
+
+var vC11FieldSpecs = []vC11FieldSpec{
+	{"f", "set", func() pilosa.FieldOption { return pilosa.OptFieldTypeSet(pilosa.CacheTypeRanked, 50000) }},
+	{"fl", "set", func() pilosa.FieldOption { return pilosa.OptFieldTypeSet(pilosa.CacheTypeLRU, 100) }},
+	{"fn", "set", func() pilosa.FieldOption { return pilosa.OptFieldTypeSet(pilosa.CacheTypeNone, 0) }},
+	{"t", "time", func() pilosa.FieldOption { return pilosa.OptFieldTypeTime(pilosa.TimeQuantum("YMD")) }},
+	{"b", "bool", func() pilosa.FieldOption { return pilosa.OptFieldTypeBool() }},
+	{"m", "mutex", func() pilosa.FieldOption { return pilosa.OptFieldTypeMutex(pilosa.CacheTypeRanked, 1000) }},
+	{"v", "int", func() pilosa.FieldOption { return pilosa.OptFieldTypeInt(-10, 1000) }},
+}
+
+// write paths per field kind; every one acts on the addressed node only
+// (holder level, API.Import/ImportValue, API.ImportRoaring(remote=true), PQL with QueryRequest.Remote).
+var vC11Vias = map[string][]string{
+	"set":   {"setbit", "clearbit", "import", "import", "importclear", "roaring", "roaringclear", "pqlset", "pqlclear", "clearrow", "store"},
+	"time":  {"setbit", "clearbit", "import", "import", "importclear", "roaring", "roaringclear", "pqlset", "pqlclear", "clearrow"},
+	"bool":  {"setbit", "clearbit", "import", "import", "pqlset", "pqlclear"},
+	"mutex": {"setbit", "clearbit", "import", "import", "importclear", "pqlset", "pqlclear", "clearrow"},
+	"int":   {"setvalue", "importvalue", "importvalue", "pqlsetvalue"},
+}
+
+type vC11Op struct {
+	Node      int
+	Field     string
+	Kind      string
+	Via       string
+	Row, Row2 uint64
+	Col, Col2 uint64 // absolute columns in one shard
+	Val, Val2 int64
+	Time      int    // index into vC11Times, -1 = none
+	RView     string // roaring writes: the view key
+}
+
 var vC11Seq int
 
 const vC11Recycle = 30
@@ -256,6 +293,21 @@ func vC11RunCluster(t *testing.T, n int) {
 		casesOnCluster++
 		// Schema set-up is a precondition, not the property: failures (bolt open timeouts on a loaded
 		// machine, ...) are retried with a new index and finally end the unit as inconclusive.
+		// Every case uses 3 of the 7 field kinds (set ranked / lru / none, time, bool, mutex, int).
+		// Open finding DX4: a divergent bool / mutex / int fragment makes the pass fail (the repair goes through
+		// ImportRoaring, which refuses these field types), so no completed pass exists for them: only set and
+		// time fields (indexes 0..3) are generated while it is open.
+		maxSpec := len(vC11FieldSpecs) - 1
+		if vkit.Open("DX4") {
+			maxSpec = 3
+			vkit.Excluded("DX4")
+		}
+		specIdx := rapid.SliceOfNDistinct(rapid.IntRange(0, maxSpec), 3, 3, func(i int) int { return i }).Draw(t, "fields")
+		sort.Ints(specIdx)
+		var specs []vC11FieldSpec
+		for _, i := range specIdx {
+			specs = append(specs, vC11FieldSpecs[i])
+		}
 		var index string
 		var setupErr error
 		for attempt := 0; attempt < 3; attempt++ {
@@ -265,15 +317,16 @@ func vC11RunCluster(t *testing.T, n int) {
 				if _, err := c[0].API.CreateIndex(ctx, index, pilosa.IndexOptions{TrackExistence: false}); err != nil {
 					return fmt.Errorf("creating index: %v", err)
 				}
-				if _, err := c[0].API.CreateField(ctx, index, "f", pilosa.OptFieldTypeSet(pilosa.DefaultCacheType, pilosa.DefaultCacheSize)); err != nil {
-					return fmt.Errorf("creating field f: %v", err)
-				}
-				if _, err := c[0].API.CreateField(ctx, index, "t", pilosa.OptFieldTypeTime(pilosa.TimeQuantum("YMD"))); err != nil {
-					return fmt.Errorf("creating field t: %v", err)
+				for _, sp := range specs {
+					if _, err := c[0].API.CreateField(ctx, index, sp.Name, sp.Opt()); err != nil {
+						return fmt.Errorf("creating field %s: %v", sp.Name, err)
+					}
 				}
 				for i, cmd := range c {
-					if cmd.Server.Holder().Field(index, "t") == nil || cmd.Server.Holder().Field(index, "f") == nil {
-						return fmt.Errorf("schema did not reach node %d", i)
+					for _, sp := range specs {
+						if cmd.Server.Holder().Field(index, sp.Name) == nil {
+							return fmt.Errorf("schema did not reach node %d", i)
+						}
 					}
 				}
 				return nil
@@ -288,208 +341,336 @@ func vC11RunCluster(t *testing.T, n int) {
 
 		shards := rapid.SliceOfNDistinct(rapid.SampledFrom([]uint64{0, 1, 3}), 1, 2, func(s uint64) uint64 { return s }).Draw(t, "shards")
 		sort.Slice(shards, func(i, j int) bool { return shards[i] < shards[j] })
-		nw := rapid.IntRange(1, 14).Draw(t, "nwrites")
-		type write struct {
-			Node   int
-			Field  string
-			Row    uint64
-			Col    uint64
-			Time   int    // index into vC11Times, -1 = none
-			RView  string // for roaring writes: the view key
-			Via    string // "setbit" | "roaring"
-			Warmed bool
-		}
-		var writes []write
-		usedTimeView := false
-		for k := 0; k < nw; k++ {
-			w := write{Time: -1}
-			shard := rapid.SampledFrom(shards).Draw(t, "shard")
-			w.Row = rapid.SampledFrom(rowPool).Draw(t, "row")
-			rel := rapid.OneOf(rapid.SampledFrom(colPool), rapid.Uint64Range(0, pilosa.ShardWidth-1)).Draw(t, "col")
-			w.Col = shard*pilosa.ShardWidth + rel
-			mask := rapid.IntRange(1, 1<<uint(n)-1).Draw(t, "nodes")
-			w.Field = rapid.SampledFrom([]string{"f", "t", "t"}).Draw(t, "field")
-			w.Via = rapid.SampledFrom([]string{"setbit", "setbit", "roaring"}).Draw(t, "via")
-			for node := 0; node < n; node++ {
-				if mask&(1<<uint(node)) == 0 {
-					continue
+		relCol := rapid.OneOf(rapid.SampledFrom(colPool), rapid.Uint64Range(0, pilosa.ShardWidth-1))
+
+		// genOps draws the writes of one round. prev = writes of the earlier round: half of the new writes
+		// reuse a (field, shard, row) of an earlier one, i.e. hit blocks whose checksums are cached by then.
+		genOps := func(label string, maxN int, prev []vC11Op) []vC11Op {
+			var ops []vC11Op
+			nw := rapid.IntRange(1, maxN).Draw(t, label+".nwrites")
+			for k := 0; k < nw; k++ {
+				op := vC11Op{Time: -1}
+				var sp vC11FieldSpec
+				var shard uint64
+				if len(prev) > 0 && rapid.Bool().Draw(t, label+".reuse") {
+					p := rapid.SampledFrom(prev).Draw(t, label+".like")
+					for _, x := range specs {
+						if x.Name == p.Field {
+							sp = x
+						}
+					}
+					shard, op.Row = p.Col/pilosa.ShardWidth, p.Row
+				} else {
+					sp = rapid.SampledFrom(specs).Draw(t, label+".field")
+					shard = rapid.SampledFrom(shards).Draw(t, label+".shard")
+					op.Row = rapid.SampledFrom(rowPool).Draw(t, label+".row")
 				}
-				wn := w
-				wn.Node = node
-				if w.Field == "t" {
-					if w.Via == "setbit" {
-						wn.Time = rapid.IntRange(0, len(vC11Times)-1).Draw(t, "time")
-						usedTimeView = true
-					} else {
-						wn.RView = rapid.SampledFrom(vC11RoaringViews).Draw(t, "rview")
-						usedTimeView = usedTimeView || wn.RView != ""
+				op.Field, op.Kind = sp.Name, sp.Kind
+				op.Col = shard*pilosa.ShardWidth + relCol.Draw(t, label+".col")
+				op.Col2 = shard*pilosa.ShardWidth + relCol.Draw(t, label+".col2")
+				op.Row2 = rapid.SampledFrom(rowPool).Draw(t, label+".row2")
+				op.Val = rapid.Int64Range(-10, 1000).Draw(t, label+".val")
+				op.Val2 = rapid.Int64Range(-10, 1000).Draw(t, label+".val2")
+				if sp.Kind == "bool" {
+					op.Row, op.Row2 = op.Row%2, op.Row2%2
+				}
+				op.Via = rapid.SampledFrom(vC11Vias[sp.Kind]).Draw(t, label+".via")
+				mask := rapid.IntRange(1, 1<<uint(n)-1).Draw(t, label+".nodes")
+				for node := 0; node < n; node++ {
+					if mask&(1<<uint(node)) == 0 {
+						continue
+					}
+					on := op
+					on.Node = node
+					if sp.Kind == "time" {
+						switch {
+						case strings.HasPrefix(op.Via, "roaring"):
+							on.RView = rapid.SampledFrom(vC11RoaringViews).Draw(t, label+".rview")
+						case op.Via == "setbit" || op.Via == "import" || op.Via == "pqlset":
+							on.Time = rapid.IntRange(-1, len(vC11Times)-1).Draw(t, label+".time")
+						}
+					}
+					ops = append(ops, on)
+				}
+			}
+			return ops
+		}
+
+		writeErrs := 0
+		apply := func(op vC11Op) {
+			cmd := c[op.Node]
+			shard := op.Col / pilosa.ShardWidth
+			fld := cmd.Server.Holder().Field(index, op.Field)
+			var ts *time.Time
+			if op.Time >= 0 {
+				ts = &vC11Times[op.Time]
+			}
+			query := func(q string, sh []uint64) error {
+				_, err := cmd.API.Query(ctx, &pilosa.QueryRequest{Index: index, Query: q, Remote: true, Shards: sh})
+				return err
+			}
+			rowLit := fmt.Sprint(op.Row)
+			if op.Kind == "bool" {
+				rowLit = fmt.Sprint(op.Row == 1)
+			}
+			var err error
+			switch op.Via {
+			case "setbit":
+				_, err = fld.SetBit(op.Row, op.Col, ts)
+			case "clearbit":
+				_, err = fld.ClearBit(op.Row, op.Col)
+			case "setvalue":
+				_, err = fld.SetValue(op.Col, op.Val)
+			case "import", "importclear":
+				req := &pilosa.ImportRequest{Index: index, Field: op.Field, Shard: shard, RowIDs: []uint64{op.Row, op.Row2}, ColumnIDs: []uint64{op.Col, op.Col2}}
+				if ts != nil {
+					req.Timestamps = []int64{ts.UnixNano(), ts.UnixNano()}
+				}
+				if op.Via == "importclear" {
+					err = cmd.API.Import(ctx, req, pilosa.OptImportOptionsClear(true))
+				} else {
+					err = cmd.API.Import(ctx, req)
+				}
+			case "importvalue":
+				cols, vals := []uint64{op.Col}, []int64{op.Val}
+				if op.Col2 != op.Col {
+					cols, vals = append(cols, op.Col2), append(vals, op.Val2)
+				}
+				err = cmd.API.ImportValue(ctx, &pilosa.ImportValueRequest{Index: index, Field: op.Field, Shard: shard, ColumnIDs: cols, Values: vals})
+			case "roaring", "roaringclear":
+				bm := roaring.NewBitmap(op.Row*pilosa.ShardWidth+op.Col%pilosa.ShardWidth, op.Row2*pilosa.ShardWidth+op.Col2%pilosa.ShardWidth)
+				var buf bytes.Buffer
+				if _, werr := bm.WriteTo(&buf); werr != nil {
+					t.Fatalf("encoding: %v", werr)
+				}
+				req := &pilosa.ImportRoaringRequest{Clear: op.Via == "roaringclear", Views: map[string][]byte{op.RView: buf.Bytes()}}
+				err = cmd.API.ImportRoaring(ctx, index, op.Field, shard, true, req)
+			case "pqlset":
+				if ts != nil {
+					err = query(fmt.Sprintf("Set(%d, %s=%s, %s)", op.Col, op.Field, rowLit, ts.Format("2006-01-02T15:04")), []uint64{shard})
+				} else {
+					err = query(fmt.Sprintf("Set(%d, %s=%s)", op.Col, op.Field, rowLit), []uint64{shard})
+				}
+			case "pqlsetvalue":
+				err = query(fmt.Sprintf("Set(%d, %s=%d)", op.Col, op.Field, op.Val), []uint64{shard})
+			case "pqlclear":
+				err = query(fmt.Sprintf("Clear(%d, %s=%s)", op.Col, op.Field, rowLit), []uint64{shard})
+			case "clearrow":
+				err = query(fmt.Sprintf("ClearRow(%s=%s)", op.Field, rowLit), shards)
+			case "store":
+				err = query(fmt.Sprintf("Store(Row(%s=%d), %s=%d)", op.Field, op.Row, op.Field, op.Row2), shards)
+			default:
+				t.Fatalf("harness: unknown write path %q", op.Via)
+			}
+			if err != nil {
+				// a refused write writes nothing (or something): the oracle only uses what is read back afterwards
+				writeErrs++
+				vkit.Count("write-error:"+op.Kind+"/"+op.Via, 1)
+			}
+		}
+		waitShards := func(ops []vC11Op) {
+			// Shard creation is announced to the other nodes asynchronously (view.CreateFragmentIfNotExists waits at most
+			// 50 ms for the broadcast). The property is about a pass over known shards: wait until every node knows every
+			// shard that holds a fragment somewhere.
+			known := false
+			for i := 0; i < 800 && !known; i++ {
+				known = true
+				have := map[uint64]bool{}
+				for _, cmd := range c {
+					if bm := cmd.Server.Holder().Index(index).AvailableShards(); bm != nil {
+						for _, s := range bm.Slice() {
+							have[s] = true
+						}
 					}
 				}
-				writes = append(writes, wn)
+				for _, cmd := range c {
+					bm := cmd.API.AvailableShardsByIndex(ctx)[index]
+					for s := range have {
+						if bm == nil || !bm.Contains(s) {
+							known = false
+						}
+					}
+				}
+				if !known {
+					time.Sleep(25 * time.Millisecond)
+				}
+			}
+			if !known {
+				vC11Env("shard creation messages did not reach every node within 20s")
 			}
 		}
-		warmAt := rapid.IntRange(0, len(writes)).Draw(t, "warmAt") // FragmentBlocks is read (checksums cached) after this many writes
 
-		doWrite := func(w write) {
-			cmd := c[w.Node]
-			shard := w.Col / pilosa.ShardWidth
-			switch w.Via {
-			case "setbit":
-				fld := cmd.Server.Holder().Field(index, w.Field)
-				var ts *time.Time
-				if w.Time >= 0 {
-					ts = &vC11Times[w.Time]
+		cs := vkit.NewCase()
+		defer cs.Done()
+		cs.Class("nodes=%d", n)
+		anyNT := false
+		var sample []string
+
+		// round runs: writes -> read back -> SyncData on one node -> check -> SyncData on all -> check.
+		round := func(label string, ops []vC11Op, warmAt int) {
+			for k, op := range ops {
+				if k == warmAt {
+					for _, fr := range vC11AllFrags(c, index, shards) {
+						for _, cmd := range c {
+							if _, err := vC11Blocks(cmd, index, fr); err != nil {
+								t.Fatalf("FragmentBlocks: %v", err)
+							}
+						}
+					}
 				}
-				if _, err := fld.SetBit(w.Row, w.Col, ts); err != nil {
-					vC11Env("SetBit on node %d: %v", w.Node, err)
+				apply(op)
+				cs.Class("%s:%s/%s", label, op.Kind, op.Via)
+			}
+			waitShards(ops)
+			frags := vC11AllFrags(c, index, shards)
+			before := vC11Snapshot(t, c, index, frags)
+			want := map[vC11Frag][]uint64{}
+			needBoth, multiClear, anyDiff, nonStdDiff := false, false, false, false
+			for _, fr := range frags {
+				m := vC11MajorityOf(before[fr])
+				want[fr] = m
+				inM := map[uint64]bool{}
+				for _, v := range m {
+					inM[v] = true
 				}
-			case "roaring":
-				bm := roaring.NewBitmap(w.Row*pilosa.ShardWidth + w.Col%pilosa.ShardWidth)
-				var buf bytes.Buffer
-				if _, err := bm.WriteTo(&buf); err != nil {
-					t.Fatalf("encoding: %v", err)
-				}
-				req := &pilosa.ImportRoaringRequest{Views: map[string][]byte{w.RView: buf.Bytes()}}
-				if err := cmd.API.ImportRoaring(ctx, index, w.Field, shard, true, req); err != nil {
-					vC11Env("ImportRoaring(remote) on node %d: %v", w.Node, err)
+				for _, vs := range before[fr] {
+					clears, has := 0, map[uint64]bool{}
+					for _, v := range vs {
+						has[v] = true
+						if !inM[v] {
+							clears++
+						}
+					}
+					sets := 0
+					for _, v := range m {
+						if !has[v] {
+							sets++
+						}
+					}
+					if sets > 0 || clears > 0 {
+						anyDiff = true
+						cs.Class("%s:divergent-field:%s", label, fr.Field)
+						if fr.View != "standard" {
+							nonStdDiff = true
+						}
+					}
+					if sets > 0 && clears > 0 {
+						needBoth = true
+					}
+					if clears >= 2 {
+						multiClear = true
+					}
 				}
 			}
-		}
-		for k, w := range writes {
-			if k == warmAt {
+			syncNode := rapid.IntRange(0, n-1).Draw(t, label+".syncNode")
+			cs.ClassIf(needBoth, "replica-needs-set-and-clear").ClassIf(multiClear, "replica-needs>=2-clears")
+			cs.ClassIf(nonStdDiff, "divergent-non-standard-view").ClassIf(!anyDiff, label+":no-divergence").ClassIf(anyDiff, label+":divergence")
+			if anyDiff && (needBoth || multiClear || n >= 3 || nonStdDiff || label == "round2") {
+				anyNT = true
+			}
+			sample = append(sample, fmt.Sprintf("%s: %v sync on node %d", label, ops, syncNode))
+
+			describe := func(fr vC11Frag) string {
+				var sb strings.Builder
+				for i, vs := range before[fr] {
+					fmt.Fprintf(&sb, " node%d=%s", i, vC11PosList(vs))
+				}
+				return sb.String()
+			}
+			verify := func(stage string) {
 				for _, fr := range vC11AllFrags(c, index, shards) {
-					for _, cmd := range c {
-						if _, err := vC11Blocks(cmd, index, fr); err != nil {
-							t.Fatalf("FragmentBlocks: %v", err)
+					w, known := want[fr]
+					if !known {
+						t.Fatalf("%s: fragment %s appeared that no node had before the sync", stage, fr)
+					}
+					var sums []string
+					for i, cmd := range c {
+						got, err := vC11ReadFragment(cmd, index, fr)
+						if err != nil {
+							t.Fatalf("%s: reading %s on node %d: %v", stage, fr, i, err)
+						}
+						if !vC11EqU(got, w) {
+							t.Fatalf("%s: %d nodes, fragment %s on node %d holds %s, want the majority %s; before the sync:%s\nwrites: %s", stage, n, fr, i, vC11PosList(got), vC11PosList(w), describe(fr), strings.Join(sample, " | "))
+						}
+						s, err := vC11Blocks(cmd, index, fr)
+						if err != nil {
+							t.Fatalf("%s: FragmentBlocks %s on node %d: %v", stage, fr, i, err)
+						}
+						sums = append(sums, s)
+					}
+					for i := 1; i < len(sums); i++ {
+						if sums[i] != sums[0] {
+							t.Fatalf("%s: %d nodes, fragment %s: node 0 reports blocks {%s} but node %d reports {%s} although both hold %s; before the sync:%s\nwrites: %s", stage, n, fr, sums[0], i, sums[i], vC11PosList(w), describe(fr), strings.Join(sample, " | "))
 						}
 					}
 				}
 			}
-			doWrite(w)
+			// The property speaks about a *completed* pass: a pass that returns an error says nothing.
+			if err := c[syncNode].Server.SyncData(); err != nil {
+				vC11Env("SyncData on node %d did not complete: %v", syncNode, err)
+			}
+			verify(fmt.Sprintf("%s, after SyncData on node %d", label, syncNode))
+			for i := range c {
+				if err := c[i].Server.SyncData(); err != nil {
+					vC11Env("SyncData on node %d did not complete: %v", i, err)
+				}
+			}
+			verify(label + ", after SyncData on every node")
 		}
 
-		// Shard creation is announced to the other nodes asynchronously (view.CreateFragmentIfNotExists waits at most
-		// 50 ms for the broadcast). The property is about a pass over known shards: wait until every node knows them.
-		written := map[uint64]bool{}
-		for _, w := range writes {
-			written[w.Col/pilosa.ShardWidth] = true
-		}
-		known := false
-		for i := 0; i < 800 && !known; i++ {
-			known = true
-			for _, cmd := range c {
-				bm := cmd.API.AvailableShardsByIndex(ctx)[index]
-				for s := range written {
-					if bm == nil || !bm.Contains(s) {
-						known = false
-					}
-				}
-			}
-			if !known {
-				time.Sleep(25 * time.Millisecond)
-			}
-		}
-		if !known {
-			vC11Env("shard creation messages did not reach every node within 20s")
-		}
-
-		frags := vC11AllFrags(c, index, shards)
-		before := vC11Snapshot(t, c, index, frags)
-		want := map[vC11Frag][]uint64{}
-		needBoth, multiClear, anyDiff, nonStdDiff := false, false, false, false
-		for _, fr := range frags {
-			m := vC11MajorityOf(before[fr])
-			want[fr] = m
-			inM := map[uint64]bool{}
-			for _, v := range m {
-				inM[v] = true
-			}
-			for _, vs := range before[fr] {
-				clears, has := 0, map[uint64]bool{}
-				for _, v := range vs {
-					has[v] = true
-					if !inM[v] {
-						clears++
-					}
-				}
-				sets := 0
-				for _, v := range m {
-					if !has[v] {
-						sets++
-					}
-				}
-				if sets > 0 || clears > 0 {
-					anyDiff = true
-					if fr.View != "standard" {
-						nonStdDiff = true
-					}
-				}
-				if sets > 0 && clears > 0 {
-					needBoth = true
-				}
-				if clears >= 2 {
-					multiClear = true
-				}
-			}
-		}
-		syncNode := rapid.IntRange(0, n-1).Draw(t, "syncNode")
-
-		cs := vkit.NewCase().Key("e2e", n, shards, fmt.Sprint(writes), warmAt, syncNode)
-		defer cs.Done()
-		cs.Class("nodes=%d", n).ClassIf(needBoth, "replica-needs-set-and-clear").ClassIf(multiClear, "replica-needs>=2-clears")
-		cs.ClassIf(nonStdDiff, "divergent-time-view").ClassIf(!anyDiff, "no-divergence").ClassIf(usedTimeView, "time-view-written")
-		cs.NT(anyDiff && (needBoth || multiClear || n >= 3 || nonStdDiff))
-		cs.Sample(map[string]interface{}{"nodes": n, "shards": shards, "writes": fmt.Sprint(writes), "sync_on": syncNode})
-
-		describe := func(fr vC11Frag) string {
-			var sb strings.Builder
-			for i, vs := range before[fr] {
-				fmt.Fprintf(&sb, " node%d=%s", i, vC11PosList(vs))
-			}
-			return sb.String()
-		}
-		verify := func(stage string) {
-			for _, fr := range vC11AllFrags(c, index, shards) {
-				w, known := want[fr]
-				if !known {
-					t.Fatalf("%s: fragment %s appeared that no node had before the sync", stage, fr)
-				}
-				var sums []string
-				for i, cmd := range c {
-					got, err := vC11ReadFragment(cmd, index, fr)
-					if err != nil {
-						t.Fatalf("%s: reading %s on node %d: %v", stage, fr, i, err)
-					}
-					if !vC11EqU(got, w) {
-						t.Fatalf("%s: %d nodes, fragment %s on node %d holds %s, want the majority %s; before the sync:%s", stage, n, fr, i, vC11PosList(got), vC11PosList(w), describe(fr))
-					}
-					s, err := vC11Blocks(cmd, index, fr)
-					if err != nil {
-						t.Fatalf("%s: FragmentBlocks %s on node %d: %v", stage, fr, i, err)
-					}
-					sums = append(sums, s)
-				}
-				for i := 1; i < len(sums); i++ {
-					if sums[i] != sums[0] {
-						t.Fatalf("%s: %d nodes, fragment %s: node 0 reports blocks {%s} but node %d reports {%s} although both hold %s; before the sync:%s", stage, n, fr, sums[0], i, sums[i], vC11PosList(w), describe(fr))
-					}
-				}
-			}
-		}
-
-		// The property speaks about a *completed* pass: a pass that returns an error says nothing.
-		if err := c[syncNode].Server.SyncData(); err != nil {
-			vC11Env("SyncData on node %d did not complete: %v", syncNode, err)
-		}
-		verify(fmt.Sprintf("after SyncData on node %d", syncNode))
-		for i := range c {
-			if err := c[i].Server.SyncData(); err != nil {
-				vC11Env("SyncData on node %d did not complete: %v", i, err)
-			}
-		}
-		verify("after SyncData on every node")
+		ops1 := genOps("round1", 10, nil)
+		warmAt := rapid.IntRange(0, len(ops1)).Draw(t, "warmAt") // FragmentBlocks is read (checksums cached) after this many writes
+		ops2 := genOps("round2", 8, ops1)
+		cs.Key("e2e", n, shards, specIdx, fmt.Sprint(ops1), warmAt, fmt.Sprint(ops2))
+		round("round1", ops1, warmAt)
+		// second divergence on replicas whose block checksums are cached by the first round
+		round("round2", ops2, -1)
+		cs.NT(anyNT)
+		cs.Sample(map[string]interface{}{"nodes": n, "shards": shards, "rounds": sample})
 	})
 }
 
 func TestVerifC11_E2E2(t *testing.T) { vC11RunCluster(t, 2) }
 func TestVerifC11_E2E3(t *testing.T) { vC11RunCluster(t, 3) }
+
+// TestVerifWitness_DX4: anti-entropy cannot repair an int (or bool, mutex) field: syncBlock sends the repair
+// through ImportRoaring, which only accepts set and time fields, so the pass fails with a 400 and aborts.
+func TestVerifWitness_DX4(t *testing.T) {
+	c := vC11StartCluster(t, 2)
+	defer c.Close()
+	ctx := context.Background()
+	if _, err := c[0].API.CreateIndex(ctx, "dx4", pilosa.IndexOptions{TrackExistence: false}); err != nil {
+		vC11Env("creating index: %v", err)
+	}
+	for name, opt := range map[string]pilosa.FieldOption{"v": pilosa.OptFieldTypeInt(-10, 1000), "b": pilosa.OptFieldTypeBool(), "m": pilosa.OptFieldTypeMutex(pilosa.CacheTypeRanked, 1000)} {
+		if _, err := c[0].API.CreateField(ctx, "dx4", name, opt); err != nil {
+			vC11Env("creating field: %v", err)
+		}
+	}
+	for _, name := range []string{"v", "b", "m"} {
+		fld := c[0].Server.Holder().Field("dx4", name)
+		var err error
+		if name == "v" {
+			_, err = fld.SetValue(3, 7)
+		} else {
+			_, err = fld.SetBit(1, 3, nil)
+		}
+		if err != nil {
+			vC11Env("write on node 0: %v", err)
+		}
+		if err := c[0].Server.SyncData(); err != nil {
+			t.Fatalf("field %s differs on the two replicas (written on node 0 only): SyncData on node 0 fails instead of repairing node 1: %v", name, err)
+		}
+	}
+	for _, name := range []string{"v", "b", "m"} {
+		view := "standard"
+		if name == "v" {
+			view = "bsig_v"
+		}
+		a, _ := vC11ReadFragment(c[0], "dx4", vC11Frag{name, view, 0})
+		b, _ := vC11ReadFragment(c[1], "dx4", vC11Frag{name, view, 0})
+		if !vC11EqU(a, b) || len(a) == 0 {
+			t.Fatalf("field %s after SyncData: node0 %s node1 %s", name, vC11PosList(a), vC11PosList(b))
+		}
+	}
+}
